@@ -111,7 +111,7 @@ def make_rng(seed, form="int"):
 
 
 def make_ptycho(scan=(4, 3), roi=(8, 8), seed=0, rng_seed=7, num_probes=1, obj_type="complex", obj_init="uniform",
-                val_ratio=0.0, val_mode="grid", step_px=2, detector_mask=None, obj_padding_px=(0, 0), rng_form="int"):
+                val_ratio=0.0, val_mode="grid", step_px=2, detector_mask=None, obj_padding_px=(0, 0), rng_form="int", ptycho_rng_seed=None):
     """A preprocessed real ``Ptychography`` object on CPU (float32/complex64), verbose 0.
 
     ``rng_seed`` is handed to every ``rng=`` argument (``Ptychography.from_models``, the object
@@ -119,6 +119,8 @@ def make_ptycho(scan=(4, 3), roi=(8, 8), seed=0, rng_seed=7, num_probes=1, obj_t
     model's own generator); None → unseeded.
     ``rng_form`` selects the form in which the seed reaches the ``rng=`` arguments (see ``make_rng``):
     "int" | "np_generator" | "torch_generator"; each consumer gets its own fresh object.
+    ``ptycho_rng_seed`` (optional) replaces ``rng_seed`` for ``Ptychography.from_models`` only (the object and probe
+    models keep ``rng_seed``) — used to exercise the ``rng`` setter afterwards.
     ``obj_init``: "uniform" | "random" (ObjectPixelated.from_uniform / from_random)."""
     import warnings
     from quantem.diffractive_imaging.detector_models import DetectorPixelated
@@ -135,7 +137,7 @@ def make_ptycho(scan=(4, 3), roi=(8, 8), seed=0, rng_seed=7, num_probes=1, obj_t
         pm = ProbePixelated.from_array(num_probes=num_probes, probe_array=tiny_probe(roi, num_probes=num_probes),
                                        probe_params={"energy": PROBE_ENERGY, "semiangle_cutoff": 20}, rng=make_rng(rng_seed, rng_form))
         p = Ptychography.from_models(dset=pd, obj_model=om, probe_model=pm, detector_model=DetectorPixelated(),
-                                     rng=make_rng(rng_seed, rng_form), verbose=0)
+                                     rng=make_rng(rng_seed if ptycho_rng_seed is None else ptycho_rng_seed, rng_form), verbose=0)
         p.preprocess(obj_padding_px=obj_padding_px, val_ratio=val_ratio, val_mode=val_mode, plot_rotation=False,
                      plot_com=False)
     return p
